@@ -18,6 +18,8 @@ transforms:
   augassign  `x op= e` -> `x = x op e`
   isnot      `a is not b` -> `not a is b` (likewise not in, !=)
   kwargs     positional arguments of self.<method>(...) calls become keyword arguments
+  earlyreturn  trailing `if c: BODY` of a function -> `if not c: return` + BODY
+  hoist      final attributes (assigned only in __init__) read twice or more in a method are read once into a local
 """
 import ast
 import os
@@ -152,6 +154,60 @@ class KwArgs(ast.NodeTransformer):
         return n
 
 
+class EarlyReturn(ast.NodeTransformer):
+    """a function whose LAST statement is `if c: BODY` (no else, function returns None there) -> `if not c: return` + BODY"""
+    def _fn(self, n):
+        self.generic_visit(n)
+        if n.body and isinstance(n.body[-1], ast.If) and not n.body[-1].orelse and not any(isinstance(x, (ast.Yield, ast.YieldFrom)) for x in ast.walk(n)):
+            last = n.body[-1]
+            t = last.test
+            neg = t.operand if isinstance(t, ast.UnaryOp) and isinstance(t.op, ast.Not) else ast.UnaryOp(op=ast.Not(), operand=t)
+            guard = ast.copy_location(ast.If(test=neg, body=[ast.copy_location(ast.Return(value=None), last)], orelse=[]), last)
+            n.body = n.body[:-1] + [guard] + last.body
+        return n
+    visit_FunctionDef = _fn
+    visit_AsyncFunctionDef = _fn
+
+
+def hoist_final_attrs(src: str) -> str:
+    """In every method, `self.A` for an attribute A that is assigned only in __init__ of its class (a final reference) and is
+    read at least twice in the method is read once into a local `A_mm` at the top of the method."""
+    tree = ast.parse(src)
+    for cls in [n for n in ast.walk(tree) if isinstance(n, ast.ClassDef)]:
+        assigned = {}
+        for m in [b for b in cls.body if isinstance(b, ast.FunctionDef)]:
+            for n in ast.walk(m):
+                if isinstance(n, ast.Attribute) and isinstance(n.value, ast.Name) and n.value.id == "self" and isinstance(n.ctx, (ast.Store, ast.Del)):
+                    assigned.setdefault(n.attr, set()).add(m.name)
+        final = {a for a, ms in assigned.items() if ms == {"__init__"}}
+        for m in [b for b in cls.body if isinstance(b, ast.FunctionDef) and b.name != "__init__"]:
+            if any(isinstance(x, (ast.Lambda, ast.FunctionDef, ast.GeneratorExp, ast.ListComp, ast.SetComp, ast.DictComp)) for x in ast.walk(m) if x is not m):
+                continue
+            if not m.args.args or m.args.args[0].arg != "self" or any(ast.unparse(d) in ("staticmethod", "classmethod", "property") for d in m.decorator_list):
+                continue
+            uses = {}
+            for n in ast.walk(m):
+                if isinstance(n, ast.Attribute) and isinstance(n.value, ast.Name) and n.value.id == "self" and isinstance(n.ctx, ast.Load) and n.attr in final:
+                    uses[n.attr] = uses.get(n.attr, 0) + 1
+            todo = sorted(a for a, k in uses.items() if k >= 2)
+            if not todo:
+                continue
+
+            class R(ast.NodeTransformer):
+                def visit_Attribute(self, n):
+                    self.generic_visit(n)
+                    if isinstance(n.value, ast.Name) and n.value.id == "self" and isinstance(n.ctx, ast.Load) and n.attr in todo:
+                        return ast.copy_location(ast.Name(id=n.attr.lstrip("_") + "_mm", ctx=ast.Load()), n)
+                    return n
+            body = [R().visit(st) for st in m.body]
+            k = 1 if body and isinstance(body[0], ast.Expr) and isinstance(body[0].value, ast.Constant) and isinstance(body[0].value.value, str) else 0
+            pre = [ast.Assign(targets=[ast.Name(id=a.lstrip("_") + "_mm", ctx=ast.Store())],
+                              value=ast.Attribute(value=ast.Name(id="self", ctx=ast.Load()), attr=a, ctx=ast.Load())) for a in todo]
+            m.body = body[:k] + pre + body[k:]
+    ast.fix_missing_locations(tree)
+    return ast.unparse(tree)
+
+
 def rename_locals(src: str, filename: str) -> str:
     tree = ast.parse(src)
     try:
@@ -210,8 +266,10 @@ def transform(kind: str, src: str, filename: str) -> str:
         return ast.unparse(ast.parse(src))
     if kind == "rename":
         return rename_locals(src, filename)
+    if kind == "hoist":
+        return hoist_final_attrs(src)
     tree = ast.parse(src)
-    tree = {"flipcmp": FlipCmp, "ifswap": IfSwap, "nestand": NestAnd, "retlocal": RetLocal, "augassign": AugToAssign, "isnot": IsNot, "kwargs": KwArgs}[kind]().visit(tree)
+    tree = {"flipcmp": FlipCmp, "ifswap": IfSwap, "nestand": NestAnd, "retlocal": RetLocal, "augassign": AugToAssign, "isnot": IsNot, "kwargs": KwArgs, "earlyreturn": EarlyReturn}[kind]().visit(tree)
     ast.fix_missing_locations(tree)
     return ast.unparse(tree)
 
